@@ -23,32 +23,37 @@ BOUNDS = {   # tier -> (B1 depth, exhaustive emission depth, simulated traces (x
 
 
 def ledger_cfg(depth, clauses):
+    """MC_PowerLedger.cfg with MaxDepth set and only the given clause lines (each check judges its own clauses)"""
     base = (tlc.SPEC / 'MC_PowerLedger.cfg').read_text().replace('MaxDepth = 4', f'MaxDepth = {depth}')
     lines = [ln for ln in base.splitlines() if not ln.startswith(('INVARIANT', 'PROPERTY'))]
     return '\n'.join(lines + list(clauses)) + '\n'
 
 
+def emit_cfg(depth):
+    return (tlc.SPEC / 'MC_PowerLedgerEmit.cfg').read_text().replace('MaxDepth = 3', f'MaxDepth = {depth}')
+
+
 def model_check(chk, depth, clauses, tag):
-    """B1 on MC_PowerLedger with the given clause lines; vacuity: witness reachable here, every action taken is
+    """B1 on MC_PowerLedger with the given clause lines; vacuity: witnesses reachable here, every action taken is
     checked on the emitted behaviours (emitted_behaviours)"""
     r = tlc.run('MC_PowerLedger', cfg_text=ledger_cfg(depth, clauses), timeout=3000, tag=f'{tag}-mc')
-    chk.add_mc(f'MC_PowerLedger MaxDepth={depth} [{len(clauses)} clauses]', r)
-    w = tlc.run('MC_PowerLedger', cfg_text=ledger_cfg(min(depth, 4), ['INVARIANT WitnessMuxAfterOps']), timeout=600,
-                tag=f'{tag}-witness')
-    if w.violated != 'WitnessMuxAfterOps':
-        raise Machinery('vacuous model: no Mux of a spectrum carrying ASE and NLI is reachable')
+    chk.add_mc(f'MC_PowerLedger depth={depth} [{len(clauses)} clauses]', r)
+    for w in ('WitnessMuxAfterOps', 'WitnessNoiseInBand'):
+        rw = tlc.run('MC_PowerLedger', cfg_text=ledger_cfg(4, [f'INVARIANT {w}']), timeout=600, tag=f'{tag}-witness')
+        if rw.violated != w:
+            raise Machinery(f'vacuous model: {w} is not reachable')
     chk.exhaustive = True
     return r
 
 
 def emitted_behaviours(chk, emit_depth, sim_num, sim_depth, tag):
-    r2 = tlc.run('MC_PowerLedger', cfg_text=ledger_cfg(emit_depth, ['INVARIANT Emit']), timeout=1800, tag=f'{tag}-emit')
-    chk.add_mc(f'emit MaxDepth={emit_depth}', r2)
+    r2 = tlc.run('MC_PowerLedgerEmit', cfg_text=emit_cfg(emit_depth), timeout=1800, tag=f'{tag}-emit')
+    chk.add_mc(f'MC_PowerLedgerEmit MaxDepth={emit_depth}', r2)
     out = list(r2.emitted)
     taken = {s['op'] for h in out for s in h}
     if taken != {'Scale', 'AddASE', 'AddNLI', 'Demux', 'Mux'}:
         raise Machinery(f'vacuous model: only the actions {sorted(taken)} are taken up to depth {emit_depth}')
-    r3 = tlc.run('MC_PowerLedger', cfg_text=ledger_cfg(sim_depth, ['INVARIANT Emit']), simulate=f'num={sim_num}',
+    r3 = tlc.run('MC_PowerLedgerEmit', cfg_text=emit_cfg(sim_depth), simulate=f'num={sim_num}',
                  depth=sim_depth + 1, seed=chk.seed + 1, workers=1, timeout=1800, tag=f'{tag}-sim')
     if r3.violated or not r3.emitted:
         raise Machinery(f'simulation run failed: {r3.error}\n{r3.out[-1500:]}')
@@ -206,6 +211,7 @@ def run_b3(chk, clauses, pid):
     chk.cov['b3_channel_snapshots'] = sum(len(e['f']) for t in traces for e in t['ev'])
     chk.cov['b3_networks'] = sorted({sides[t['name']]['net'] for t in traces})
     chk.cov['b3_measured_deviation'] = pu.deviations(traces)
+    chk.cov['b3_float_share_sum_deviation'] = max((sides[t['name']]['float_share_dev'] for t in traces), default=0.0)
     chk.cov['b3_tolerances'] = dict(TolUdb=10, TolOrderUdb=1, TolPpb=3, TolInv=3)
     for t in judged:
         if any(e['cls'] == 'Multiband_amplifier' for e in t['ev']):
